@@ -716,11 +716,43 @@ fn c11_check(events: &[ClockEv], node: u8) -> Option<(&'static str, Value)> {
     None
 }
 
+/// One logical tick used up: a remote stamp well ahead of the wall clock (but inside the allowed drift)
+/// is registered, then ~65 500 stamps are requested while the logical time cannot advance - the clock
+/// actor's counter runs up to its back-pressure limit (65 525) without overflowing (65 535).
+async fn c11_exhaust_tick(seed: u64, round: u64) -> (Vec<ClockEv>, u8) {
+    let mut rng = rng_for(seed, 0xC11_7C, round);
+    let node: u8 = rng.gen_range(0..200);
+    let clock = Clock::new(node);
+    let base = clock.get_time().await;
+    let remote = HLCTimestamp::new(base.datacake_timestamp() + Duration::from_secs(rng.gen_range(30..600)), 0, node.wrapping_add(1));
+    clock.register_ts(remote).await;
+    let mut events = vec![ClockEv::Registered { remote, token: 1, beyond_drift: false }];
+    let tasks = 4usize;
+    // goes past the back-pressure limit and stays below the u16 capacity: 1 (recv) + 4 x 16 382 = 65 529 < 65 535
+    let calls = 16_382usize;
+    let mut handles = Vec::new();
+    for t in 0..tasks {
+        let clock = clock.clone();
+        handles.push(tokio::spawn(async move {
+            let mut local = Vec::with_capacity(calls);
+            for c in 0..calls {
+                let ts = clock.get_time().await;
+                local.push(ClockEv::Got { task: t, seq: c as u64, ts, started_after_token: 1 });
+            }
+            local
+        }));
+    }
+    for h in handles {
+        events.extend(h.await.unwrap());
+    }
+    (events, node)
+}
+
 pub fn c11(args: &Args) {
     let mut report = Report::new(
         args,
         "clock",
-        "T tasks x M calls on one real datacake_node::Clock (the actor + flume channel + oneshot replies), mixing get_time, register_ts(remote) (10% of remotes beyond the allowed drift) and abandoned get_time requests (future polled once, then dropped), random yields; runtimes: current-thread and multi-thread with 2/4/16 workers; T in {2,4,16,64} and bursts of 2 500 tasks x 3 calls (more simultaneous callers than the actor's request queue of 1000 holds). Checked on the recorded history: all returned stamps pairwise distinct and carrying the node id, per task strictly increasing, every get_time that started after a register_ts(r) had returned (global happens-before token) is > r unless r was beyond the drift. Non-trivial: every round has >= 2 tasks; distinct = distinct orderings of the first 32 results by task.",
+        "T tasks x M calls on one real datacake_node::Clock (the actor + flume channel + oneshot replies), mixing get_time, register_ts(remote) (10% of remotes beyond the allowed drift) and abandoned get_time requests (future polled once, then dropped), random yields; runtimes: current-thread and multi-thread with 2/4/16 workers; T in {2,4,16,64} and bursts of 2 500 tasks x 3 calls (more simultaneous callers than the actor's request queue of 1000 holds); plus rounds that use up one logical tick: a remote stamp 30..600 s ahead (inside the drift) is registered and 4 tasks request 65 528 stamps while the logical time cannot advance, so the counter reaches the actor's back-pressure limit (65 525) without overflowing. Checked on the recorded history: all returned stamps pairwise distinct and carrying the node id, per task strictly increasing, every get_time that started after a register_ts(r) had returned (global happens-before token) is > r unless r was beyond the drift. Non-trivial: every round has >= 2 tasks; distinct = distinct orderings of the first 32 results by task.",
     );
     let seed = args.seed;
     let rounds = args.pick(3_000, 60_000);
@@ -760,6 +792,24 @@ pub fn c11(args: &Args) {
         }
         report.absorb(out);
     }
+    // rounds that use up a whole logical tick (counter up to the back-pressure limit)
+    for (k, (workers, name)) in flavours.iter().enumerate() {
+        for j in 0..args.pick(1, 6) {
+            let r = 9_000_000 + (k as u64) * 100 + j;
+            let (events, node) = block_on_real(*workers, c11_exhaust_tick(seed, r));
+            let mut out = CaseOut::default();
+            out.nontrivial = Some(hash_of(&("exhaust-tick", name, r)));
+            let max_counter = events.iter().filter_map(|e| if let ClockEv::Got { ts, .. } = e { Some(ts.counter()) } else { None }).max().unwrap_or(0);
+            out.count("stamps_returned", events.len() as u64 - 1);
+            out.count("rounds_that_reached_the_backpressure_limit", (max_counter >= 65_525) as u64);
+            if let Some((what, d)) = c11_check(&events, node) {
+                out.violate(format!("C11:{what}:logical-tick-used-up"), json!({"runtime": name, "round": r, "greatest_counter_handed_out": max_counter, "why": d}));
+                out.replay = Some(json!({"round": r, "note": "re-runs the same round parameters"}));
+            }
+            report.absorb(out);
+        }
+    }
+    report.floor("rounds_that_reached_the_backpressure_limit", 2);
     report.floor("stamps_returned", 50_000);
     report.floor("remote_stamps_registered", 5_000);
     report.floor("burst_rounds", 20);
